@@ -5,7 +5,7 @@
    status and the final state of every fan; the observer judges the
    implementation's own observation. *)
 From F2G Require Export Model.Restore Model.Daemon.
-From F2G Require Import Drv.Common gen.Consts Proofs.Restore Proofs.Daemon.
+From F2G Require Import Drv.Common gen.Consts.
 From Coq Require Import Lia.
 
 Record fanobs := mkFanObs {
